@@ -178,6 +178,45 @@ theorem makeData_is_reference (ty : Nat) (hty : ty < 65536) (pcode : Int) (body 
   · simp [Gen.C05.steps_makeData, makeDataMeaning, run, interp, wr, semMakeData, S0, h, Gen.C05.netSrc, Gen.C05.netVer,
       ← wrapHeader_is_frame, netSrcOneWay, netSrcVersion, payload, e]
 
+def semSecureHeader (src ver : Nat) (pcode oid key : Int) (t : Bytes) : Sem :=
+  { S0 with env := fun a => match a with
+    | "_L0" => .n src
+    | "_L1" => .n ver
+    | "_L2" => .i pcode
+    | "_L3" => .i oid
+    | "_L4" => .i key
+    | "_L5" => .raw t
+    | _ => .none }
+
+/-- `WriteSecureHeader(src, ver, pcode, oid, key)`: the reference secure frame around the saved content -/
+theorem writeSecureHeader_is_reference (src ver : Nat) (pcode oid key : Int) (t : Bytes) :
+    run (semSecureHeader src ver pcode oid key t) Gen.C05.steps_WriteSecureHeader = secureFrame src ver pcode oid key t := by
+  simp [Gen.C05.steps_WriteSecureHeader, run, interp, wr, semSecureHeader, S0, secureFrame]
+
+/-! ### what a pack carries from one Write to the next (the tie-A half of the re-send clause)
+
+  `C05.resend_frames_are_current_state` says the model's frames depend on the current public state only.  For the
+  Go objects to behave like that, a pack must not keep encoded bytes between Writes.  Regenerated from the
+  source: the unexported fields of the eight pack structs (and AbstractPack), those among them that could hold
+  encoded bytes, the fields assigned inside Write (or a method Write calls on the receiver), and the
+  package-level variables Write mentions.  As of today the only state a Write leaves behind is the tag hash of
+  the two tag-hash packs — a number, which the model has as an input (`effTagHash`, `send_*_frame_condition`).
+  A new cache field, a new assignment in Write or a package-level scratch buffer changes one of these lists. -/
+
+theorem pack_state_unexported_fields :
+    Gen.C05.packUnexportedFields = [("AbstractPack", []), ("TagCountPack", [("tagHash", "int64")]), ("LogSinkPack", []),
+      ("TextPack", [("records", "[]TextRec")]), ("ParamPack", [("table", "*hmap.StringKeyLinkedMap")]), ("EventPack", []),
+      ("ZipPack", []), ("HitMapPack1", []), ("CounterPack1", [])] := by decide
+
+theorem pack_state_no_byte_cache : ∀ e ∈ Gen.C05.packByteHoldingFields, e.2 = [] := by decide
+
+theorem pack_state_assigned_in_write :
+    Gen.C05.packAssignedInWrite = [("AbstractPack", []), ("TagCountPack", ["tagHash"]), ("LogSinkPack", ["TagHash"]),
+      ("TextPack", []), ("ParamPack", []), ("EventPack", []), ("ZipPack", []), ("HitMapPack1", []), ("CounterPack1", [])] := by
+  decide
+
+theorem pack_state_no_package_scratch : ∀ e ∈ Gen.C05.packPkgVarsInWrite, e.2 = [] := by decide
+
 /-! #### the small bodies -/
 
 def semZip (p : Zip) : Sem :=
